@@ -38,13 +38,18 @@ def gen(family, k, seed, work):
 
 def record(sessions, repo, solve):
     jobs = [{"kind": "roborta", "board": s["board"], "probs": s["probs"], "via": s.get("via", "write"),
+             "cli": s.get("cli"), "loadonly": s.get("loadonly", False),
              "twice": s["tid"] % 4 == 3, "solve": solve, "budget": 300.0} for s in sessions]
     results = pool.run_jobs(jobs, repo, budget=300.0)
     for s, (events, status) in zip(sessions, results):
         if status != "ok" or not events:
             raise common.MachineryError("harness failure in roborta session %s: %s" % (s["tid"], status))
         s.update({k: events[0][k] for k in ("keys", "loaderr", "games", "exact", "raw", "outcomes", "created")})
+        if "board" in events[0]:          # command-line sessions: the board the seed defines
+            s["board"] = events[0]["board"]
         s.setdefault("via", "write")
+        s.setdefault("loadonly", False)
+        s["board"].setdefault("rden", 1)
 
 
 def validate(sessions, work, want, res):
@@ -55,7 +60,7 @@ def validate(sessions, work, want, res):
     for i in range(nsh):
         path = os.path.join(work, "rob_%d.json" % i)
         recs = [{k: s[k] for k in ("tid", "board", "probs", "keys", "loaderr", "games", "exact", "raw", "outcomes",
-                                   "created", "via")}
+                                   "created", "via", "loadonly")}
                 for s in order[i::nsh]]
         obs.check_ints(recs)
         with open(path, "w") as f:
@@ -75,6 +80,43 @@ def validate(sessions, work, want, res):
     return verdicts
 
 
+EXTREME = [4000, 4900, 997000, 995100, 125000, 333333, 100000, 500000, 20000]
+
+
+def cli_sessions(seed, n):
+    """Files written by the generator's command line (main): seeds, shapes and probabilities that are
+    accepted but not whole percents, down to 0.004 and up to 0.997.  Not solved (nosolve): such
+    probabilities make the iterations astronomically long, which is not what these sessions are for."""
+    import random
+    rng = random.Random(seed * 7919 + 5)
+    out = []
+    for i in range(n):
+        L, W = rng.choice([(1, 1), (1, 2), (2, 1), (2, 2), (1, 3), (3, 1), (2, 3), (3, 2), (1, 4), (4, 1)])
+        out.append({"board": {"L": L, "W": W, "moves": [], "rewards": [], "loose": [], "rden": 1},
+                    "probs": {"tb": rng.choice(EXTREME), "rb": rng.choice(EXTREME), "lb": rng.choice(EXTREME)},
+                    "cli": {"seed": rng.randrange(0, 500), "L": L, "W": W, "maxr": rng.choice([1, 2, 6, 30]),
+                            "lt": rng.choice([4000, 300000, 500000, 996000, 125000]), "fd": rng.random() < 0.5},
+                    "via": "cli", "src": "cli", "nosolve": True})
+    return out
+
+
+def big_load_sessions(seed, tier):
+    """Boards beyond 400 tiles: only that the written file loads into the three games (the
+    clauses on the games themselves are size-independent and exercised on the small boards)."""
+    import random
+    rng = random.Random(seed * 31 + 1)
+    shapes = [(21, 20), (134, 3), (1, 401)] + ([(60, 40), (500, 2)] if tier == "thorough" else [])
+    out = []
+    for L, W in shapes:
+        out.append({"board": {"L": L, "W": W, "rden": 1,
+                              "moves": [[rng.randrange(0, 4) for _ in range(W)] for _ in range(L)],
+                              "rewards": [[rng.randrange(0, 7) for _ in range(W)] for _ in range(L)],
+                              "loose": [[rng.randrange(0, 2) for _ in range(W)] for _ in range(L)]},
+                    "probs": {"tb": 100000, "rb": 100000, "lb": 100000}, "via": "write", "loadonly": True,
+                    "src": "bigload", "nosolve": True})
+    return out
+
+
 def solve_sessions(sessions, repo, work, res, long_budget=240.0):
     """C11, last clause: every emitted game is solved or reported as having no solution.
     The games go through the solver flow (hooks, Trace_Solver) in the batch runner's order:
@@ -83,7 +125,7 @@ def solve_sessions(sessions, repo, work, res, long_budget=240.0):
     known_open = common.load_known()["open"]
     ss = []
     for s in sessions:
-        if s["keys"] != ["game_a", "game_b", "game_c"]:
+        if s["keys"] != ["game_a", "game_b", "game_c"] or s.get("nosolve"):
             continue
         for name, g, raw in zip(s["keys"], s["games"], s["raw"]):
             if not raw["valid"] or g["n"] == 0:
@@ -126,10 +168,14 @@ def run(prop, tier, seed, repo):
         for fam, k in PLAN[(prop, tier)]:
             for c in gen(fam, k, seed * 100 + 8, work):
                 sessions.append({"board": c["board"], "probs": c["probs"], "src": fam})
+        if prop in ("C08", "C11"):
+            sessions += cli_sessions(seed, 24 if tier == "quick" else 600)
+        if prop == "C11":
+            sessions += big_load_sessions(seed, tier)
         for i, s in enumerate(sessions):
             s["tid"] = i + 1
-            # half of the boards go through the manual entry point (C11)
-            s["via"] = "manual" if ((prop == "C11" and i % 2 == 1) or prop == "C17") else "write"
+            # every second board goes through the manual entry point (its own argument order)
+            s.setdefault("via", "manual" if (i % 2 == 1 or prop == "C17") else "write")
         t1 = time.time()
         record(sessions, repo, solve=False)
         t2 = time.time()
